@@ -40,6 +40,12 @@ type harness struct {
 	dead     bool
 }
 
+func (h *harness) flush() {
+	if h.a.Out != "" {
+		h.res.Write(h.a.Out)
+	}
+}
+
 func (h *harness) ask(line string) string {
 	if h.dead {
 		return "DEAD"
@@ -336,6 +342,9 @@ func flipPositions(r *vh.Rng, n int, all bool, budget int) []int {
 }
 
 func (h *harness) niCase(c *niCase, comp compiler.Name, variant int, r *vh.Rng, flipAll bool, flipBudget int) {
+	// partial results are flushed after every case: a panic inside a library goroutine cannot
+	// be recovered and would otherwise lose the mismatches found so far
+	defer h.flush()
 	cs := genCtx(r)
 	ctx, err := cs.build()
 	if err != nil {
@@ -428,6 +437,28 @@ func (h *harness) niCase(c *niCase, comp compiler.Name, variant int, r *vh.Rng, 
 			d2 := c.decode(comp, p2)
 			want := d2.expectation(orig)
 			h.checkOne("component-altered", c, comp, variant, cs, 0, p2, orig, want)
+		}
+		// the number of components: in every array of the proof, at every nesting level, one
+		// element appended / duplicated / dropped (re-encoded) — rejected, by an error
+		if arrays, err := cborArrays(proof); err == nil {
+			ab := 8
+			if h.thorough || h.a.Search {
+				ab = 24
+			}
+			if c.light {
+				ab = 2
+			}
+			// largest arrays last is irrelevant; take them in tree order but prefer distinct depths
+			for i, a := range arrays {
+				if i >= ab {
+					break
+				}
+				names, vs := a.countVariants(proof)
+				for k, p2 := range vs {
+					d2 := c.decode(comp, p2)
+					h.checkOne("array-"+names[k], c, comp, variant, cs, 0, p2, orig, d2.expectation(orig))
+				}
+			}
 		}
 		// length variation of every byte-string component: extended by 1/16/32 bytes (suffix,
 		// zero prefix), truncated by one — rejected unless the decoded value is the same proof
